@@ -1,9 +1,20 @@
 //! Struct and implementation of the Node entry in the Kademlia routing table
+#[cfg(not(mainline_verif))]
 use std::{
     fmt::{self, Debug, Formatter},
     net::SocketAddrV4,
     sync::Arc,
     time::{Duration, Instant},
+};
+#[cfg(mainline_verif)]
+use {
+    crate::verif::Instant,
+    std::{
+        fmt::{self, Debug, Formatter},
+        net::SocketAddrV4,
+        sync::Arc,
+        time::Duration,
+    },
 };
 
 use crate::common::Id;
